@@ -360,7 +360,8 @@ theorem good_step (fx : Fixes) (s s' : St α) (st : Step α) (g : Good fx s) (h 
         | none =>
           simp at h
           subst h
-          exact ⟨g.fifo, g.drained, fun _ => hb, g.eng, g.obs⟩
+          have := good_emit fx s _ (resyncObs (seenList s.observed) ([] : List (String × Load α))) g rfl
+          exact ⟨this.fifo, this.drained, fun _ => by simpa [St.emit] using hb, this.eng, this.obs⟩
         | some files =>
           simp only at h
           cases hp : prep fx files with
@@ -368,7 +369,7 @@ theorem good_step (fx : Fixes) (s s' : St α) (st : Step α) (g : Good fx s) (h 
           | ok xs =>
             simp [hp] at h
             subst h
-            have := good_emit fx s xs (obsOfFiles files) g (loadAll_ok_eq fx _ xs hp)
+            have := good_emit fx s _ (resyncObs (seenList s.observed) files) g rfl
             exact ⟨this.fifo, this.drained, fun _ => by simpa [St.emit] using hb, this.eng, this.obs⟩
       · simp only [hd] at h
         simp at h
